@@ -1325,8 +1325,15 @@ class MultiDimGridPDF(
         self._cache_tdm_trial_data_state_id = tdm.trial_data_state_id
 
         if self._cache_pd is None:
+            # The cache holds the pd values of all N_values values. If only
+            # the values selected by evt_mask are given, the not yet calculated
+            # values are marked with NaN.
+            if evt_mask is None:
+                cache_shape = pd.shape
+            else:
+                cache_shape = evt_mask.shape
             self._cache_pd = np.full(
-                pd.shape,
+                cache_shape,
                 np.nan,
                 dtype=np.float64)
 
